@@ -146,6 +146,19 @@ def finding_for(findings, prop, kind, key, detail=""):
     return None
 
 
+def _replayable(v):
+    """can this JSON value (from Engine.concretize) be turned back into a real argument?"""
+    if isinstance(v, str):
+        return not (v.startswith("Ref(") or v.startswith("Opaque(") or v.startswith("<") or "object at 0x" in v or "FieldType" in v)
+    if isinstance(v, dict):
+        if "__obj__" in v:
+            return False
+        return all(_replayable(x) for x in v.values())
+    if isinstance(v, (list, tuple)):
+        return all(_replayable(x) for x in v)
+    return True
+
+
 INTERNAL_KINDS = {"loop-init", "loop-preserve", "loop-variant", "lemma", "call-variant"}
 
 
@@ -228,6 +241,8 @@ def main(argv):
                     fn = o["function"]
                     c = speclang.CONTRACTS[fn]
                     argv_ = [o["inputs"].get(p) for p in c.params.keys()]
+                    if not all(_replayable(v) for v in argv_):
+                        continue      # the model has no concrete counterpart for this argument kind: nothing to replay
                     cases.setdefault(fn, []).append(dict(args=argv_, key="counter-model of " + name, sig="counter-model"))
             limit = meta.get("limit_quick", 40) if tier == "quick" else meta.get("limit_thorough", 600)
             rt = run_runtime(scratch, prop, None, tier, seed, limit, cases)
